@@ -149,6 +149,23 @@ def run_case(runner, space, case):
             if not r.status.startswith("exit:") or r.status in ("exit:86", "exit:87"):
                 viol.append(("c08-cli-abnormal-%s" % mode[0], "mode %s: %s stderr %r" % (mode, r.status, r.stderr[:400])))
         return {"transitions": n, "outcome": out, "nontrivial": True, "violations": viol}
+    if space == "c13" and "env" in case:
+        # every command returns whatever its environment answers: standard input exhausted at an overwrite prompt, a directory
+        # sitting where a file is to be created
+        arc = b"".join(three_members())
+        if case["env"] == "prompt":
+            pre = [["alpha.txt", "f", b"old", 0o644, 900000000], ["gamma", "f", b"old", 0o644, 900000000]]
+            r = runner.run(arc, [case["cmd"], "../archive.lzh"], stdin=case["stdin"].encode(), pre=pre, want_trees=False, timeout=20, stdin_pipe=case.get("pipe", False))
+        else:
+            pre = [[n, "d", b"", 0o755, 900000000] for i, n in enumerate(("alpha.txt", "dir/beta.bin", "gamma")) if case["mask"] & (1 << i)]
+            if case.get("nonempty"):
+                pre += [[p[0] + "/inside", "f", b"x", 0o644, 900000000] for p in list(pre)]
+            r = runner.run(arc, [case["cmd"], "../archive.lzh"], stdin=b"y\ny\ny\n", pre=pre, want_trees=False, timeout=20)
+        if r.status == "timeout":
+            viol.append(("c13-cli-does-not-return", "lha %s did not return (%s)" % (case["cmd"], {k: v for k, v in case.items() if k != "cmd"})))
+        elif not r.status.startswith("exit:") or r.status in ("exit:86", "exit:87"):
+            viol.append(("c08-cli-abnormal", "%s: %s %r" % (case["cmd"], r.status, r.stderr[:300])))
+        return {"transitions": 1, "outcome": hash((r.status, r.stdout[-80:])), "nontrivial": True, "violations": viol}
     if space in ("c13", "c16"):
         seed = seeds_c08()[case["seed"]]
         arc = seed[:case["cut"]]
@@ -219,6 +236,17 @@ def cases_c08(thorough):
             yield {"seed": si, "op": "dup", "pos": pos}
         for pos in range(0, len(seed), 1 if thorough else 3):
             yield {"seed": si, "op": "cut", "pos": pos}
+
+
+def cases_c13_env(thorough):
+    for cmd in ("x", "e", "-x", "xv", "xw=OUT"):
+        for stdin in ("", "q\n", "junk", "\n", "y", "n\n", "yes\nno", "a", "s", "\0\n", "y\n" * 3, "zzzzzzzzzzzzzzzzzzzzzzzzzzzzzzzzzzzzzzzzzzzz"):
+            for pipe in (False, True):
+                yield {"env": "prompt", "cmd": cmd, "stdin": stdin, "pipe": pipe}
+    for mask in range(1, 8):
+        for cmd in ("xf", "xq", "ef", "x", "xfi", "xfw=OUT"):
+            for nonempty in (False, True):
+                yield {"env": "blocked", "cmd": cmd, "mask": mask, "nonempty": nonempty}
 
 
 def cases_io(thorough):
